@@ -561,12 +561,10 @@ package lib
 // Interface contract of a wrapping transport, from the documentation of the interface: a transport that answers
 // "try again" or "not this transport" has not touched the connection (no Write, no Close, no Read) and has consumed
 // nothing of the buffered data. (Proved for the min and prefix implementations in their packages; assumed for obfs4.)
-// Errors it returns are of the network stack's shape (C17 vocabulary).
 //@ func (t WrappingTransport) WrapConnection(data *bytes.Buffer, conn net.Conn, phantom net.IP, rm transports.RegManager) (transports.Registration, net.Conn, error)
 //@   ensures result2 == transports.ErrTryAgain || result2 == transports.ErrNotTransport ==> nwrites(conn) == old(nwrites(conn)) && closed(conn) == old(closed(conn)) && rdEnded(conn) == old(rdEnded(conn)) && nread(conn) == old(nread(conn)) && bufStr(data) == old(bufStr(data))
 // the two answers are given as the bare sentinel values, never wrapped inside another error
 //@   ensures result2 != transports.ErrTryAgain && result2 != transports.ErrNotTransport ==> !errIs(result2, transports.ErrTryAgain) && !errIs(result2, transports.ErrNotTransport) && (typeis(result2, *net.OpError) && unboxptr(result2, *net.OpError).Err != nil ==> !errIs(unboxptr(result2, *net.OpError).Err, transports.ErrTryAgain) && !errIs(unboxptr(result2, *net.OpError).Err, transports.ErrNotTransport))
-//@   ensures netStackErr(result2)
 // a match returns a connection and a registration obtained from the registration manager (a *DecoyRegistration)
 //@   ensures result2 == nil ==> result1 != nil && typeis(result0, *DecoyRegistration) && unboxptr(result0, *DecoyRegistration) != nil
 //@   assigns nwrites(conn), nwritten(conn), txh(conn), wfail(conn), closed(conn), rdEnded(conn), rxh(conn), nread(conn), dlSet(conn), bufStr(data), obj(data)
